@@ -9,7 +9,7 @@ import sqlite3
 import coregen as cg
 
 PROP = 'C11'
-LEAN_TARGETS = ['MorphKgc.Props.C11']
+LEAN_TARGETS = ['MorphKgc.Props.C11', 'MorphKgc.Props.C11Now']
 GEN_KEYS = ['rowindep', 'null', 'group_set', 'canon']
 M = 'MorphKgc.Props.C11'
 THEOREMS = [{'name': f'Props.C11.{n}', 'module': M} for n in [
@@ -25,6 +25,8 @@ THEOREMS = [{'name': f'Props.C11.{n}', 'module': M} for n in [
     'C11_F1_null_sibling', 'C11_F1_fractional_sibling', 'C11_F1_union_fails', 'C11_F1_in_scope', 'C11_F1_scope_not_hereditary',
     'C11_F1_json_absent_key',
 ]]
+# hypothesis-free theorems of the repaired shapes the translator reads from /repo now (Props/C11Now.lean)
+THEOREMS += [{'name': f'Props.C11.{n}', 'module': 'MorphKgc.Props.C11Now'} for n in ['C11_current_frame_strip', 'C11_frame_union_current']]
 RULE = ('a mapping (1-2 triples maps, subject template over 1-2 columns, 1-3 predicate-object maps: reference / literal template / IRI template / constant, '
         'optionally rr:datatype xsd:integer|boolean|dateTime|double|string or a language; for `csvjoin` a referencing object map with a join condition over a '
         'second file) over a table of 0-6 rows from small value pools (so that rows share subjects, agree on some columns only, differ by case only, end in .0) '
